@@ -61,6 +61,7 @@ def check(ctx, rep):
     from ..optargs import check as _optargs
     _optargs(ctx, rep, ['pcbasic/basic/devices/files.py', 'pcbasic/basic/devices/diskfiles.py'], 12)
     from . import c24 as _c24, _share as _sh
+    _sh.share(ctx, rep, _c24, ('lof.wide-enough',), 'LOC and LOF of a random file are returned as single-precision numbers (record numbers run to 2^25)')
     _sh.share(ctx, rep, _c24, ('eof-marker.cut',), 'opening a file never cuts a byte off it except the EOF marker of a text file opened for APPEND')
     n = 0
     typed = 0
